@@ -1,4 +1,5 @@
 import GlueVerif.Lemmas.C05Spec
+import GlueVerif.Lemmas.C05Reentrant
 /-!
 # C05 — results always reflect the current data, regions and links: never a stale cache
 
@@ -13,6 +14,10 @@ driver `Drivers/C05.lean` runs against `glue/core/subset.py`, `decorators.py`, `
   that change the leaf environment (`w : epoch ↦ Env`) and invalidate what the policy `pol` says
   (`pinnedPolicy`: the one table of the top-level state's class / nothing for links;
   `repairedPolicy`: `clear_all_caches()`);
+* `expand L prog` — histories with **re-entrant** mutations: a mutation is a script of phases (clear / state
+  change / broadcast, as coded), `L` says which evaluations hub listeners perform when a message class is
+  delivered; the expansion is a flat history run by the same `Impl.run` / `Spec.run` (the `World` tick moves with
+  every state change of a script: listener evaluations are judged in the state current at that moment);
 * `Spec.run tbl w` — the same histories with nothing cached: every evaluation returns
   `denoteNow` = `Expr.denote` of the value the object *currently* stands for in the *current*
   environment.
@@ -94,12 +99,71 @@ theorem impl_fresh_unseen (tbl : ClassTable) (hf : tbl.Faithful) (pol : Policy) 
   (run_fresh tbl hf pol w prog {} {} init_sync
     (run_coherent tbl hf pol hp w prog {} {} init_sync (fun x hx => by cases hx) hP)).1
 
-/-- **Full theorem for the data / link part on the repaired tree.**  With `clear_all_caches()` on every
-data-side mutation, *every* history of constructions, copies, edit modes, evaluations (any order, call
-form, dataset, view) and data / link mutations — i.e. every history without in-place parameter edits —
-observes exactly what the property demands. -/
-theorem impl_fresh_repaired (tbl : ClassTable) (hf : tbl.Faithful) (w : World) (prog : List C05Cache.Op)
-    (hnp : ∀ op ∈ prog, op.isParamMut = false) :
+/-- **Re-entrant evaluation: what a script must guarantee.**  Histories in which every data-side mutation is a
+*script* — the order of `clear_all_caches()` calls, state changes and hub broadcasts — and hub listeners evaluate
+selections **inside their message handlers** (`L`: for every message class the evaluations performed when it is
+delivered; *any* listeners).  If every script is `Sound` — started with coherent tables, every message is
+broadcast, and the mutation ends, with each state change followed by a clear ("no stale key is reachable at any
+broadcast point") — and the history has no in-place parameter edits, then **every** evaluation, those performed
+inside a listener during a half-done mutation included, returns `denote` of the object's value in the state
+current *at that moment* (`Spec` on the expanded history: the tick of the `World` moves with every state change
+of a script), and every evaluation after the mutation that of the final state. -/
+theorem impl_fresh_reentrant (tbl : ClassTable) (hf : tbl.Faithful) (pol : Policy) (hp : pol.ClearsAll) (w : World)
+    (L : Listeners) (prog : List LOp) (hs : ∀ s, LOp.mutate s ∈ prog → Sound s)
+    (hnp : ∀ o, LOp.op o ∈ prog → o.isParamMut = false ∧ o.isBareChange = false) :
+    (C05Cache.Impl.run tbl pol w {} (expand L prog)).2.map (·.obs) =
+      (C05Cache.Spec.run tbl w {} (expand L prog)).2 :=
+  (run_fresh tbl hf pol w (expand L prog) {} {} init_sync
+    (run_flow tbl hf pol hp w (expand L prog) {} {} false false init_sync (fun _ x hx => by cases hx)
+      (flowOps_expand L prog hs hnp))).1
+
+/-- **The scripts of the repaired code are sound** — for every value of their parameters (which components are
+removed and which derived components go with them, whether the number of dimensions / the label / the coordinates
+change, how many components are added, how many world components are replaced) and wherever the link manager and
+the data collection run their `_set_externally_derivable_components` blocks (`sync`: any list).  Transcribed from
+`Data.update_components`, `update_values_from_data`, `add_component` (new / replacing), `_remove_component`,
+`update_id`, the `coords` setter (`_update_world_components` under `hub.delay_callbacks()`), and
+`LinkManager.update_externally_derivable_components`. -/
+theorem repaired_scripts_sound (m : Mutation) (sync : List Msg) : Sound (m.phases sync) :=
+  flow_mergeSync m.script sync false (mutation_script_sound m)
+
+/-- A block of clears, state changes and broadcasts that is sound when the messages are delivered at once stays
+sound under `hub.delay_callbacks()` (messages queued and delivered in order when the block is left). -/
+theorem delay_block_sound (ps : List Phase) (h : Sound ps) : Sound (Script.delayed ps) :=
+  flow_delayed ps false h
+
+/-- **Full theorem for the data / link part on the repaired tree — with hub listeners.**  Every history of
+constructions, copies, edit modes, evaluations (any order, call form, dataset, view) and data-side mutations
+(`update_components`, `update_values_from_data` with the same / another shape, number of dimensions and component
+set, adding / replacing / removing / re-labelling a component, changing the coordinates, adding / removing links),
+each mutation run **phase by phase as coded** with arbitrary listeners evaluating re-entrantly on any message
+class, observes exactly what the property demands: listener evaluations the current (intermediate) state, later
+evaluations the final state.  (`L := []` and atomic `dataMut` ops give the round-1 statement.) -/
+theorem impl_fresh_repaired (tbl : ClassTable) (hf : tbl.Faithful) (w : World) (L : Listeners) (prog : List MOp)
+    (hnp : ∀ o, MOp.op o ∈ prog → o.isParamMut = false ∧ o.isBareChange = false) :
+    (C05Cache.Impl.run tbl repairedPolicy w {} (expand L (prog.map MOp.toLOp))).2.map (·.obs) =
+      (C05Cache.Spec.run tbl w {} (expand L (prog.map MOp.toLOp))).2 := by
+  apply impl_fresh_reentrant tbl hf repairedPolicy (fun _ => rfl) w L
+  · intro s hm
+    obtain ⟨x, _, hx⟩ := List.mem_map.mp hm
+    cases x with
+    | op o => cases hx
+    | mutation m sync =>
+      simp only [MOp.toLOp, LOp.mutate.injEq] at hx
+      subst hx
+      exact repaired_scripts_sound m sync
+  · intro o hm
+    obtain ⟨x, hxm, hx⟩ := List.mem_map.mp hm
+    cases x with
+    | op o' =>
+      simp only [MOp.toLOp, LOp.op.injEq] at hx
+      subst hx
+      exact hnp _ hxm
+    | mutation m sync => cases hx
+
+/-- The atomic form (round 1): flat histories whose data-side mutations are the atomic `dataMut` ops. -/
+theorem impl_fresh_repaired_atomic (tbl : ClassTable) (hf : tbl.Faithful) (w : World) (prog : List C05Cache.Op)
+    (hnp : ∀ op ∈ prog, op.isParamMut = false ∧ op.isBareChange = false) :
     (C05Cache.Impl.run tbl repairedPolicy w {} prog).2.map (·.obs) = (C05Cache.Spec.run tbl w {} prog).2 :=
   impl_fresh_unseen tbl hf repairedPolicy (fun _ => rfl) w prog
     (progUnseen_of_noParamMut tbl repairedPolicy w prog {} hnp)
@@ -332,5 +396,102 @@ theorem stale_roi_moved_under_composite :
 theorem stale_multiOr_copy_after_edit :
     (C05Cache.Impl.run classTable repairedPolicy wEnv {} progMultiOrCopy).2.map (·.obs) ≠
       (C05Cache.Spec.run classTable wEnv {} progMultiOrCopy).2 := by decide
+
+/-! ## Re-entrant evaluation: witnesses -/
+
+/-- Content 1 = `x > 2`: `[F,F,T,T]` for the old values (ticks 0 and 1: the removal of the derived component
+does not touch `x`), `[T,T,F,F]` once the arrays are swapped (tick ≥ 2). -/
+def wRe : World := fun ep =>
+  ⟨fun c _ _ =>
+    if c = 0 then .ok ⟨[4], [false, false, false, false]⟩
+    else if ep ≤ 1 then .ok ⟨[4], [false, false, true, true]⟩
+    else .ok ⟨[4], [true, true, false, false]⟩⟩
+
+/-- The component is gone from tick 1 on: a fresh copy raises `IncompatibleAttribute`. -/
+def wGone : World := fun ep =>
+  ⟨fun c _ _ =>
+    if c = 0 then .ok ⟨[4], [false, false, false, false]⟩
+    else if ep = 0 then .ok ⟨[4], [false, true, false, true]⟩
+    else .error .incompatible⟩
+
+/-- A viewer: re-evaluates the edit subset whenever the set of components changes. -/
+def redraw : Listeners := [(.compsChanged, [.evalCur 0 vw])]
+
+/-- `update_values_from_data` from a dataset without the derived component, **as seeded in `C05c`**: the single
+`clear_all_caches()` moved to the top — clear, `remove_component` (pop, two messages), arrays swapped,
+`NumericalDataChangedMessage`. -/
+def scriptClearFirst : List Phase :=
+  [.clear, .change, .msg .remove, .msg .compsChanged, .change, .msg .numerical]
+
+/-- … and as the repaired code runs it. -/
+def scriptRepaired : List Phase := (Mutation.updateValues (.node .nil .nil) none 0 false none).phases []
+
+/-- `update_values_from_data` before `fix: clear caches at every broadcast point` (F3): the new dataset lacks one
+component and has a new one — messages before *and after* the swap, one clear at the end. -/
+def scriptLateClear : List Phase :=
+  [.change, .msg .remove, .msg .compsChanged, .change, .msg .add, .msg .compsChanged, .clear, .msg .numerical]
+
+/-- `remove_component` before F3: pop, two messages, no clear. -/
+def scriptRemoveNoClear : List Phase := [.change, .msg .remove, .msg .compsChanged]
+
+open C05Cache.Op in
+/-- `s.subset_state = x > 2; s.to_mask(); <mutation>; s.to_mask()` with a listener attached. -/
+def progRe (script : List Phase) : List LOp :=
+  [.op (base (.leaf .inequality 1)), .op (base (.edit .replace 0)), .op (base (.evalCur 0 vw)), .mutate script,
+   .op (base (.evalCur 0 vw))]
+
+/-- **Clearing before the swap is unsound** (seeded `C05c`): the listener's evaluation during the removal phase
+repopulates the memo tables from the *old* values, nothing clears them afterwards; after the mutation the
+selection still answers with the mask of the previous values.  The script breaks the flow (`none`: a message while
+dirty); the listener's own observation (old values at that moment) is correct — only later ones are stale. -/
+theorem clear_before_swap_unsound :
+    flow false scriptClearFirst = none ∧
+    ((C05Cache.Impl.run classTable repairedPolicy wRe {} (expand redraw (progRe scriptClearFirst))).2.map (·.obs)).getLast? =
+      some (.mask (.ok ⟨[4], [false, false, true, true]⟩)) ∧
+    (C05Cache.Spec.run classTable wRe {} (expand redraw (progRe scriptClearFirst))).2.getLast? =
+      some (.mask (.ok ⟨[4], [true, true, false, false]⟩)) := by decide
+
+/-- The repaired script on the same history with the same listener: sound, and the observations agree — the
+listener sees the old values while they are current, everything later the new ones. -/
+example : Sound scriptRepaired := by decide
+example : (C05Cache.Impl.run classTable repairedPolicy wRe {} (expand redraw (progRe scriptRepaired))).2.map (·.obs) =
+    (C05Cache.Spec.run classTable wRe {} (expand redraw (progRe scriptRepaired))).2 := by decide
+example : ((C05Cache.Spec.run classTable wRe {} (expand redraw (progRe scriptRepaired))).2.filter (· != .none)) =
+    [.mask (.ok ⟨[4], [false, false, true, true]⟩), .mask (.ok ⟨[4], [false, false, true, true]⟩),
+     .mask (.ok ⟨[4], [true, true, false, false]⟩)] := by decide
+
+/-- F3 (before the fix): a message between the swap and its clear — the listener itself is answered with the
+mask of the previous values (cached when it handled the message of the removal phase). -/
+theorem message_between_swap_and_clear_unsound :
+    flow false scriptLateClear = none ∧
+    (C05Cache.Impl.run classTable repairedPolicy wRe {} (expand redraw (progRe scriptLateClear))).2.map (·.obs) ≠
+      (C05Cache.Spec.run classTable wRe {} (expand redraw (progRe scriptLateClear))).2 := by decide
+
+/-- F3 (before the fix): `remove_component` clears nothing — the cached mask is returned where a fresh copy
+raises `IncompatibleAttribute` (no listener needed). -/
+theorem remove_without_clear_stale :
+    flow false scriptRemoveNoClear = none ∧
+    ((C05Cache.Impl.run classTable repairedPolicy wGone {} (expand [] (progRe scriptRemoveNoClear))).2.map (·.obs)).getLast? =
+      some (.mask (.ok ⟨[4], [false, true, false, true]⟩)) ∧
+    (C05Cache.Spec.run classTable wGone {} (expand [] (progRe scriptRemoveNoClear))).2.getLast? =
+      some (.mask (.error .incompatible)) := by decide
+
+/-- `_update_world_components` with the clear only after the delay block: the queued messages are delivered when
+the block is left, i.e. before the clear. -/
+theorem clear_after_delay_block_unsound :
+    flow false (Script.delayed [.change, .msg .remove, .msg .compsChanged] ++ [.clear]) = none := by decide
+
+/-- The transcription of `_update_world_components` is the delay block it is written as. -/
+example : Script.world 2 1 =
+    [.change, .clear, .change, .clear, .msg .remove, .msg .compsChanged, .msg .remove, .msg .compsChanged,
+     .msg .add, .msg .compsChanged] := by decide
+
+/-- A refresh that drops `x` (with the derived `s`) and `z`, adds one component and changes the coordinates,
+with the link-manager blocks where they are seen. -/
+example : traceOf 0 ((Mutation.updateValues (.node (.node .nil .nil) (.node .nil .nil)) none 1 false (some (1, 1))).phases
+      [.remove, .extDerivable, .compsChanged]) =
+    [(1, some .remove), (1, some .extDerivable), (0, some .compsChanged), (1, some .remove), (0, some .compsChanged),
+     (1, some .remove), (0, some .compsChanged), (1, some .add), (0, some .compsChanged), (1, some .remove),
+     (0, some .compsChanged), (0, some .add), (0, some .compsChanged), (1, some .numerical), (0, none)] := by decide
 
 end GlueVerif.C05
